@@ -843,11 +843,88 @@ func umax0(t *Term) uint64 {
 	return mask(t.W())
 }
 
+// srange: a cheap signed interval for 64-bit terms built from bounded
+// non-negative values by +, - and constants (ok=false when unknown).
+func srange(t *Term) (lo, hi int64, ok bool) {
+	if t.W() != 64 {
+		return 0, 0, false
+	}
+	const lim = int64(1) << 61
+	switch t.op {
+	case OConst:
+		v := int64(t.val)
+		if v > -lim && v < lim {
+			return v, v, true
+		}
+		return 0, 0, false
+	case OSub, OAdd:
+		al, ah, ok1 := srange(t.args[0])
+		bl, bh, ok2 := srange(t.args[1])
+		if !ok1 || !ok2 {
+			break
+		}
+		if t.op == OSub {
+			return al - bh, ah - bl, true
+		}
+		return al + bl, ah + bh, true
+	}
+	if u := umax(t); u < uint64(lim) {
+		return 0, int64(u), true
+	}
+	return 0, 0, false
+}
+
+func floorDiv(a, b int64) int64 {
+	q := a / b
+	if (a%b != 0) && ((a < 0) != (b < 0)) {
+		q--
+	}
+	return q
+}
+
+// mulCmp rewrites  x*c <op> K  (signed, c > 0 constant, no overflow by srange)
+// into a comparison on x.
+func mulCmp(op Op, a, b *Term) *Term {
+	split := func(t *Term) (*Term, int64, bool) {
+		if t.op == OMul && t.args[1].IsConst() {
+			c := int64(t.args[1].val)
+			if c > 1 && c < 1<<31 {
+				if lo, hi, ok := srange(t.args[0]); ok && lo > -(1<<30) * (1<<1) * (1 << 0) * (1 << 29) / 1 && hi < (1<<60) && (hi < (1<<61)/c) && (lo > -(1<<61)/c) {
+					return t.args[0], c, true
+				}
+			}
+		}
+		return nil, 0, false
+	}
+	if x, c, ok := split(a); ok && b.IsConst() {
+		k := int64(b.val)
+		if op == OSle { // x*c <= k  <=>  x <= floor(k/c)
+			return cmp(OSle, x, Const(64, uint64(floorDiv(k, c))))
+		}
+		// x*c < k  <=>  x <= ceil(k/c)-1 = floor((k-1)/c)
+		return cmp(OSle, x, Const(64, uint64(floorDiv(k-1, c))))
+	}
+	if x, c, ok := split(b); ok && a.IsConst() {
+		k := int64(a.val)
+		if op == OSle { // k <= x*c  <=>  x >= ceil(k/c) = floor((k-1)/c)+1
+			return cmp(OSle, Const(64, uint64(floorDiv(k-1, c)+1)), x)
+		}
+		// k < x*c  <=>  x >= floor(k/c)+1
+		return cmp(OSle, Const(64, uint64(floorDiv(k, c)+1)), x)
+	}
+	return nil
+}
+
 func cmp(op Op, a, b *Term) *Term {
 	if a.sort != b.sort || a.sort.K != SBV {
 		panic(fmt.Sprintf("cmp %s: sort mismatch %v vs %v", opName[op], a.sort, b.sort))
 	}
 	w := a.W()
+	if w == 64 && (op == OSle || op == OSlt) && (a.op == OMul || b.op == OMul) {
+		if r := mulCmp(op, a, b); r != nil {
+			return r
+		}
+	}
 	if a.op == OConst && b.op == OConst {
 		switch op {
 		case OUlt:
